@@ -269,3 +269,109 @@ func init() {
 			}
 		}})
 }
+
+// structuralProblems: the verdict of the Go judge restricted to what the Lean reference automaton
+// (Smtp/Judge.lean) decides: order and step of commands, not ESMTP parameters or line syntax
+func structuralProblems(evs []Event) []string {
+	var out []string
+	for _, p := range judgeDialogue(evs) {
+		if strings.Contains(p, "without the") || strings.Contains(p, "contains CR or LF") || strings.Contains(p, "parameter without") {
+			continue
+		}
+		out = append(out, p)
+	}
+	return out
+}
+
+// mutateTrace makes a (probably illegal) dialogue out of a recorded one
+func mutateTrace(r *Rng, evs []Event) []Event {
+	out := append([]Event(nil), evs...)
+	if len(out) < 3 {
+		return out
+	}
+	idxOf := func(pred func(Event) bool) []int {
+		var ix []int
+		for i, e := range out {
+			if pred(e) {
+				ix = append(ix, i)
+			}
+		}
+		return ix
+	}
+	cmds := idxOf(func(e Event) bool { return e.Kind == "cmd" })
+	replies := idxOf(func(e Event) bool { return e.Kind == "reply" })
+	switch r.Intn(7) {
+	case 0: // drop a reply: the next command is out of step
+		if len(replies) > 0 {
+			i := replies[r.Intn(len(replies))]
+			out = append(out[:i], out[i+1:]...)
+		}
+	case 1: // duplicate a command (with a reply of its own)
+		if len(cmds) > 0 {
+			i := cmds[r.Intn(len(cmds))]
+			dup := []Event{out[i], {Kind: "reply", Code: 250, Line: "ok"}}
+			out = append(out[:i], append(dup, out[i:]...)...)
+		}
+	case 2: // turn an accepting reply into a refusal
+		if len(replies) > 0 {
+			i := replies[r.Intn(len(replies))]
+			out[i].Code = 550
+		}
+	case 3: // remove a command together with its reply
+		if len(cmds) > 0 {
+			i := cmds[r.Intn(len(cmds))]
+			j := i + 1
+			if j < len(out) && out[j].Kind == "reply" {
+				j++
+			}
+			out = append(out[:i], out[j:]...)
+		}
+	case 4: // swap two commands
+		if len(cmds) > 1 {
+			a, b := cmds[r.Intn(len(cmds))], cmds[r.Intn(len(cmds))]
+			out[a], out[b] = out[b], out[a]
+		}
+	case 5: // the greeting is refused, the client talks anyway
+		if len(replies) > 0 {
+			out[replies[0]].Code = 554
+		}
+	case 6: // insert a DATA somewhere
+		i := 1 + r.Intn(len(out)-1)
+		ins := []Event{{Kind: "cmd", Line: "DATA"}, {Kind: "reply", Code: 354, Line: "go"}}
+		out = append(out[:i], append(ins, out[i:]...)...)
+	}
+	return out
+}
+
+func init() {
+	register(Suite{Name: "c04-judges", Property: "C04",
+		Rule: "the reference automaton of the C04 theorem (Lean, Smtp/Judge.lean) against the harness judge (Go, oracle_smtp.go) on the same dialogues: the traces of the real client under generated scripts (both must accept), and mutations of them (reply removed, command duplicated / removed / swapped, acceptance turned into refusal, refused greeting, stray DATA): the two verdicts must agree; non-trivial = mutated trace",
+		Run: func(c *Ctx) {
+			n := c.N(700, 40000)
+			for i := 0; i < n; i++ {
+				r := c.Rng
+				sc := genScenario(r, 3, 3)
+				npos, _ := positionsOf(sc)
+				for k := 0; k < r.Intn(3) && npos > 0; k++ {
+					sc.Script[r.Intn(npos)] = genFailAction(r)
+				}
+				run, _ := RunScenario(sc)
+				if run.Panic != nil || run.Stage == "config" {
+					continue
+				}
+				c.rep.OracleChecked++
+				probs := structuralProblems(run.Events)
+				if len(probs) > 0 {
+					c.Violate("c04-illegal", probs[0], sc)
+				}
+				c.AddCase(Case{Line: "smtp judge " + encLS(traceStrings(run.Events)), Want: "legal=" + encBool(len(probs) == 0), Nontrivial: false,
+					Branch: "real", Desc: sc})
+				for m := 0; m < 3; m++ {
+					mut := mutateTrace(r, run.Events)
+					mp := structuralProblems(mut)
+					c.AddCase(Case{Line: "smtp judge " + encLS(traceStrings(mut)), Want: "legal=" + encBool(len(mp) == 0), Nontrivial: true,
+						Branch: fmt.Sprintf("mutated legal=%v", len(mp) == 0), Desc: map[string]interface{}{"scenario": sc, "mutated_trace": traceStrings(mut), "go_judge": mp}})
+				}
+			}
+		}})
+}
